@@ -282,6 +282,8 @@ type Client struct {
 
 	// The semaphore allows for one ping request at a time.
 	pingAck chan chan<- error
+	// Ping callers install and uninstall their callback under lock.
+	pingMutex sync.Mutex
 
 	atLeastOnce, exactlyOnce outbound
 
